@@ -1,6 +1,7 @@
 """C03: every INS sample carries the exact meta-proposal density and weight."""
 import itertools
 import json
+import re
 import math
 import os
 import subprocess
@@ -75,6 +76,13 @@ def configs(tier, seed):
             out.append({"seed": 100 * seed + 90 + j, "kwargs": {**base, "nlive": nl, "max_iteration": 1 + j,
                                                                "draw_iid_live": j == 0}, "hang_after": 1500})
     return out
+
+
+# functions whose failure is a failure of the density bookkeeping itself
+BOOKKEEPING = {"update_log_q", "compute_meta_proposal_from_log_q", "compute_log_Q", "compute_meta_proposal_samples", "add_samples",
+               "add_initial_samples", "sort_samples", "update_proposal_weights", "add_new_proposal_weight", "log_prob_ith",
+               "log_prob_all", "get_proposal_log_prob", "rescale", "to_prime", "add_and_update_points", "update_evidence",
+               "resume_from_pickled_sampler", "get_inverse_indices", "finalise", "draw", "draw_from_prior", "inverse_rescale"}
 
 
 def translate(chk):
@@ -224,9 +232,19 @@ def run(chk):
     for cfg, res in zip(cfgs, results):
         tag = ",".join(f"{k}={v}" for k, v in cfg["kwargs"].items() if k not in ("nlive", "max_iteration", "min_samples", "min_remove"))
         if "error" in res:
-            chk.fail("C03:run-failed:" + res["error"], f"importance sampler run failed ({tag}): {res['trace'][-400:]}",
-                     {"config": cfg, "trace": res["trace"]})
-            continue
+            frames = re.findall(r'File "[^"]*/nessai/([^"]+)", line \d+, in (\w+)', res.get("trace", ""))
+            where = frames[-1] if frames else ("?", "?")
+            if where[1] in BOOKKEEPING or not frames:
+                chk.fail(f"C03:run-failed:{res['error']}@{where[1]}", f"importance sampler run failed inside the density bookkeeping "
+                         f"({tag}): {res['trace'][-400:]}", {"config": cfg, "trace": res["trace"]})
+                continue
+            # the run died elsewhere (that an accepted configuration completes is C20's property, not this one): the
+            # iterations that did finish are still checked
+            chk.count(f"run ended early outside the bookkeeping code: {res['error']} in {where[0]}:{where[1]}")
+            chk.notes.append(f"run {tag} model={cfg.get('model', 'uniform')} ended early: {res['error']} in {where[0]}:{where[1]}; "
+                             f"{len(res.get('snaps', []))} snapshots taken before that are checked")
+            if not res.get("snaps"):
+                continue
         chk.traces += 1
         chk.count("runs")
         chk.count("snapshots", len(res["snaps"]))
